@@ -4,6 +4,15 @@
 //! self-triggering and mutually triggering rule sets without no-loop, `max_cycles` in 0..=64, timeout None.
 //! Every case runs in its own thread with a 5 s deadline: a call that does not return is observed as `hang`
 //! (after two hangs the remaining cases of the batch are reported as `hang-skipped`).
+//! Three further families put the same loop into the situations in which per-engine / per-cycle bookkeeping can go
+//! stale (see `gen_large_kb`, `gen_kb_edit_history`, `gen_after_bound_or_error`):
+//!   * large knowledge bases (30..140 rules, sizes next to 32 / 64 / 128 over-represented): gated or never-true fillers
+//!     with the self- / mutually triggering rules behind all of them, in the middle, in front, or split;
+//!   * histories on ONE engine that alternate execute calls with knowledge-base edits that move rules to other
+//!     positions (add above / between / below, remove in front, re-add a removed name, enable / disable, fact edits,
+//!     reset_no_loop_tracking) over no-loop / lock-on-active / activation-group rules whose conditions are true;
+//!   * a call that ends at the max_cycles bound or with an action error while activation groups are closed,
+//!     followed by further calls on the same engine (every ordered pair of the two execute twins).
 #[path = "c02.rs"]
 #[allow(dead_code)]
 mod c02;
@@ -109,6 +118,372 @@ fn gen(rng: &mut Rng, n: usize, _tier: &str) -> Vec<String> {
         }
         out.push(show_case(&Case { maxc, facts, rules, ops }));
     }
+    for _ in 0..(n / 40).max(24) {
+        out.push(gen_large_kb(rng));
+    }
+    for _ in 0..(n / 6).max(40) {
+        out.push(gen_kb_edit_history(rng));
+    }
+    for _ in 0..(n / 10).max(40) {
+        out.push(gen_after_bound_or_error(rng));
+    }
+    out
+}
+
+fn exec_op(rng: &mut Rng) -> String {
+    if rng.chance(1, 2) {
+        "C".to_string()
+    } else {
+        format!("X{}", rng.pick(&[10u64, 20, 30]))
+    }
+}
+
+// ---------------------------------------------------------------------------------------------
+// large knowledge bases
+
+/// a rule that never fires: false condition (most), disabled, other agenda group, expired, not yet effective
+fn filler(rng: &mut Rng) -> RuleSpec {
+    let mut r = rule(0, 0, 1, ('L', 0, 50), vec![('A', 2, 1)]);
+    match rng.below(12) {
+        0..=6 => r.cond = *rng.pick(&[('E', 3, 99), ('G', 0, 1000), ('L', 0, -1000), ('E', 0, -1), ('G', 2, 5000)]),
+        7 => r.flags = 0,
+        8 => r.flags = 2,
+        9 => r.ag = Some(1),
+        10 => r.exp = Some(9),
+        _ => r.eff = Some(51),
+    }
+    if rng.chance(1, 10) {
+        r.flags |= 2;
+    }
+    r
+}
+
+/// 30..140 rules. `ordered` is the knowledge base in the order the engine will scan it; saliences are assigned
+/// non-increasing along it (with ties), names are the scan positions, and the rules are added class by class in a
+/// random order of the salience classes (stable sort: the scan order is `ordered` whatever the order of addition).
+fn gen_large_kb(rng: &mut Rng) -> String {
+    // the rules that fire, in their relative scan order
+    let kind = rng.below(7);
+    let b = rng.range(2, 12) as i64;
+    let firing: Vec<RuleSpec> = match kind {
+        0 => vec![rule(0, 0, 1, ('L', 0, b), vec![('A', 0, 1)])],
+        1 => vec![
+            rule(0, 0, 1, ('L', 0, b), vec![('A', 0, 1)]),
+            rule(0, 0, 1, ('L', 2, rng.range(2, 12) as i64), vec![('A', 2, 1)]),
+        ],
+        2 => vec![rule(0, 0, 1, ('E', 1, 0), vec![('S', 1, 1), ('A', 2, 1)]), rule(0, 0, 1, ('E', 1, 1), vec![('S', 1, 0)])],
+        3 => {
+            let k = rng.range(2, 4);
+            (0..k).map(|i| rule(0, 0, 1, ('E', 1, i as i64), vec![('S', 1, ((i + 1) % k) as i64), ('A', 2, 1)])).collect()
+        }
+        4 => vec![
+            rule(0, 0, 1, ('E', 1, 0), vec![('S', 1, 1), ('A', 2, 1)]),
+            rule(0, 0, 1, ('E', 1, 1), vec![('S', 1, 2)]),
+            rule(0, 0, 1, ('L', 2, b), vec![('S', 1, 0)]),
+        ],
+        5 => vec![rule(0, 0, 1, ('G', 0, -1), vec![('A', 0, 1)])],
+        _ => vec![rule(0, 0, 3, ('G', 0, -1), vec![('A', 0, 1)]), rule(0, 0, 1, ('L', 2, b), vec![('A', 2, 2)])],
+    };
+    let nfill = match rng.below(16) {
+        0 | 1 => 64,
+        2 => 65,
+        3 => 63,
+        4 => 128,
+        5 => 129,
+        6 => 127,
+        7 => rng.range(30, 34),
+        8 => rng.range(30, 63),
+        _ => rng.range(64, 136),
+    } as usize;
+    let mut ordered: Vec<RuleSpec> = (0..nfill).map(|_| filler(rng)).collect();
+    // where the firing rules go: behind every filler (half of the cases), middle, front, split, scattered
+    let nfire = firing.len();
+    match rng.below(10) {
+        0..=4 => ordered.extend(firing),
+        5 => {
+            let at = nfill / 2;
+            for (i, r) in firing.into_iter().enumerate() {
+                ordered.insert(at + i, r);
+            }
+        }
+        6 => {
+            for (i, r) in firing.into_iter().enumerate() {
+                ordered.insert(i, r);
+            }
+        }
+        7 => {
+            // the first firing rule in front, the others behind every filler
+            let mut it = firing.into_iter();
+            let first = it.next().unwrap();
+            ordered.extend(it);
+            ordered.insert(0, first);
+        }
+        8 => {
+            // all but the last behind the fillers, the last one in front
+            let mut f = firing;
+            let last = f.pop().unwrap();
+            ordered.extend(f);
+            ordered.insert(0, last);
+        }
+        _ => {
+            let mut pos: Vec<usize> = (0..nfire).map(|_| rng.below(nfill as u64 + 1) as usize).collect();
+            pos.sort();
+            for (i, (r, p)) in firing.into_iter().zip(pos).enumerate() {
+                ordered.insert(p + i, r);
+            }
+        }
+    }
+    // a rule that fires in the first pass only: later passes are kept alive by the other firing rules alone
+    if rng.chance(1, 4) {
+        let at = if rng.chance(2, 3) { 0 } else { rng.below(ordered.len() as u64 + 1) as usize };
+        ordered.insert(at, rule(0, 0, 1, ('E', 3, 0), vec![('S', 3, 1)]));
+    }
+    // non-increasing saliences along the scan order
+    let tie = rng.range(1, 8);
+    let mut sal: i64 = *rng.pick(&[10i64, 100, 7, i32::MAX as i64]);
+    let n = ordered.len();
+    for (i, r) in ordered.iter_mut().enumerate() {
+        r.name = i as u64;
+        if i > 0 && !rng.chance(tie, 8) {
+            sal -= rng.range(1, 3) as i64;
+        }
+        if i + 1 == n && rng.chance(1, 6) {
+            sal = i32::MIN as i64;
+        }
+        r.sal = sal;
+    }
+    let mut classes: Vec<i64> = ordered.iter().map(|r| r.sal).collect();
+    classes.dedup();
+    rng.shuffle(&mut classes);
+    let mut rules = Vec::with_capacity(n);
+    for c in classes {
+        rules.extend(ordered.iter().filter(|r| r.sal == c).cloned());
+    }
+    let maxc = *rng.pick(&[3usize, 8, 16, 20, 20, 40, 64]);
+    let mut ops = Vec::new();
+    if rng.chance(1, 8) {
+        ops.push(format!("S{}.{}", rng.below(3), rng.below(3)));
+    }
+    ops.push(if rng.chance(3, 4) { format!("X{}", rng.pick(&[10u64, 20, 30])) } else { "C".to_string() });
+    if rng.chance(1, 4) {
+        ops.push(exec_op(rng));
+    }
+    show_case(&Case { maxc, facts: vec![Some(0), Some(0), Some(0), Some(0)], rules, ops })
+}
+
+// ---------------------------------------------------------------------------------------------
+// execute / edit the knowledge base / execute … on one engine
+
+/// fields: f0 free, f1..f3 triggers (0/1), f4 / f5 firing counters
+fn edit_rule(rng: &mut Rng, name: u64, sal: i64) -> RuleSpec {
+    let mut flags = 1u8;
+    if rng.chance(3, 4) {
+        flags |= 2;
+    }
+    if rng.chance(1, 6) {
+        flags |= 4;
+    }
+    if rng.chance(1, 14) {
+        flags &= 6;
+    }
+    let trig = rng.range(1, 3);
+    let (cond, acts) = if flags & 6 != 0 {
+        // no-loop / lock-on-active: the condition stays true after the firing
+        match rng.below(4) {
+            0 | 1 => (('L', 0, 50), vec![('A', 4, 1)]),
+            2 => (('E', trig, 1), vec![('A', 5, 1)]),
+            _ => (('G', 4, -1), vec![('A', 4, 1)]),
+        }
+    } else {
+        // fires once per trigger
+        (('E', trig, 1), vec![('S', trig, 0), ('A', 5, 1)])
+    };
+    let mut r = rule(name, sal, flags, cond, acts);
+    if rng.chance(1, 8) {
+        r.actg = Some(0);
+    }
+    if rng.chance(1, 12) {
+        r.ag = Some(0);
+    }
+    r
+}
+
+/// where `KnowledgeBase::add_rule` puts a rule: behind every rule whose salience is >= its own
+fn kb_insert(kb: &mut Vec<(u64, i64)>, name: u64, sal: i64) {
+    let pos = kb.iter().position(|x| x.1 < sal).unwrap_or(kb.len());
+    kb.insert(pos, (name, sal));
+}
+
+fn gen_kb_edit_history(rng: &mut Rng) -> String {
+    let k0 = rng.range(1, 4);
+    let mut kb: Vec<(u64, i64)> = Vec::new(); // the knowledge base in scan order
+    let mut rules = Vec::new();
+    for i in 0..k0 {
+        let sal = *rng.pick(&[0i64, 5, 10, 10, 20]);
+        rules.push(edit_rule(rng, i, sal));
+        kb_insert(&mut kb, i, sal);
+    }
+    let mut next_name = k0;
+    let mut removed: Vec<u64> = Vec::new();
+    let facts: Vec<Option<i64>> = vec![
+        Some(rng.below(3) as i64),
+        Some(rng.chance(3, 4) as i64),
+        Some(rng.chance(3, 4) as i64),
+        Some(rng.chance(1, 2) as i64),
+        Some(0),
+        Some(0),
+    ];
+    let mut ops: Vec<String> = Vec::new();
+    if rng.chance(7, 8) {
+        ops.push(exec_op(rng));
+    }
+    let rounds = rng.range(1, 4);
+    for _ in 0..rounds {
+        let nedit = *rng.pick(&[1u64, 1, 1, 2, 2, 3]);
+        for _ in 0..nedit {
+            let hi = kb.iter().map(|x| x.1).max().unwrap_or(0);
+            let lo = kb.iter().map(|x| x.1).min().unwrap_or(0);
+            match rng.below(14) {
+                0..=4 => {
+                    let sal = match rng.below(6) {
+                        0..=2 => hi + rng.range(1, 5) as i64,                                      // in front of every rule
+                        3 => if kb.is_empty() { 0 } else { kb[rng.below(kb.len() as u64) as usize].1 }, // behind its ties
+                        4 => lo - rng.range(0, 3) as i64,                                          // at / near the end
+                        _ => rng.range(0, 25) as i64,
+                    };
+                    // mostly a fresh name; sometimes the name of a removed rule (its no-loop mark is by name)
+                    let name = if !removed.is_empty() && rng.chance(1, 4) {
+                        removed.swap_remove(rng.below(removed.len() as u64) as usize)
+                    } else if rng.chance(1, 20) && !kb.is_empty() {
+                        kb[rng.below(kb.len() as u64) as usize].0 // duplicate: add_rule fails, nothing moves
+                    } else {
+                        next_name += 1;
+                        next_name - 1
+                    };
+                    let r = edit_rule(rng, name, sal);
+                    ops.push(format!("A{}", show_rule(&r)));
+                    if !kb.iter().any(|x| x.0 == name) {
+                        kb_insert(&mut kb, name, sal);
+                    }
+                }
+                5..=8 => {
+                    let name = if kb.is_empty() || rng.chance(1, 12) {
+                        next_name + 1
+                    } else if rng.chance(1, 2) {
+                        kb[0].0 // in front of everything else
+                    } else {
+                        kb[rng.below(kb.len() as u64) as usize].0
+                    };
+                    ops.push(format!("R{}", name));
+                    if let Some(p) = kb.iter().position(|x| x.0 == name) {
+                        kb.remove(p);
+                        removed.push(name);
+                    }
+                }
+                9 => {
+                    let name = if kb.is_empty() { 0 } else { kb[rng.below(kb.len() as u64) as usize].0 };
+                    ops.push(format!("{}{}", if rng.chance(2, 3) { 'E' } else { 'D' }, name));
+                }
+                10 | 11 => ops.push(format!("S{}.1", rng.range(1, 3))),
+                12 => ops.push(format!("S{}.{}", rng.below(4), rng.below(2))),
+                _ => ops.push("N".to_string()),
+            }
+        }
+        ops.push(exec_op(rng));
+    }
+    let maxc = *rng.pick(&[2usize, 3, 3, 5, 16, 16, 1]);
+    show_case(&Case { maxc, facts, rules, ops })
+}
+
+// ---------------------------------------------------------------------------------------------
+// a call that ends at the bound or with Err, then more calls on the same engine
+
+/// fields: f0 / f1 counters, f2 the field the failing action reads (absent at first), f3 free
+fn gen_after_bound_or_error(rng: &mut Rng) -> String {
+    let maxc = *rng.pick(&[2usize, 3, 4, 5, 5, 6, 8]);
+    let nag = rng.range(1, 2);
+    let na = rng.range(1, 3);
+    let mut rules = Vec::new();
+    let bound = |rng: &mut Rng| -> i64 {
+        // never reached within the history, or reached in the call after the one that ran into max_cycles
+        if maxc < 3 || rng.chance(1, 2) { 50 } else { rng.range(maxc as u64 + 1, 2 * maxc as u64 - 2) as i64 }
+    };
+    for i in 0..na {
+        let f = if i == 0 || rng.chance(2, 3) { 0 } else { 1 };
+        let mut r = rule(i, *rng.pick(&[7i64, 0, 0, -5]), 1, ('L', f, bound(rng)), vec![('A', f, 1)]);
+        r.actg = Some(i % nag);
+        if rng.chance(1, 10) {
+            r.flags |= 2;
+        }
+        if rng.chance(1, 10) {
+            r.actg = None;
+        }
+        rules.push(r);
+    }
+    if rng.chance(1, 4) {
+        rules.push(rule(na, *rng.pick(&[7i64, 0, -5]), 1, ('L', 1, bound(rng)), vec![('A', 1, 1)]));
+    }
+    let failing = rng.chance(1, 2);
+    let fname = 9u64;
+    if failing {
+        // `f2 + 1` on an absent field is an action error; mostly scanned behind the activation-group rules
+        let sal = if rng.chance(5, 6) { *rng.pick(&[-5i64, -9, 0]) } else { 9 };
+        let mut r = rule(fname, sal, 1, ('L', 0, 50), vec![('A', 2, 1)]);
+        if rng.chance(1, 3) {
+            r.cond = ('G', 0, rng.below(maxc as u64) as i64 - 1); // errs in a later pass
+        }
+        if rng.chance(1, 4) {
+            r.actg = Some(rng.below(nag));
+        }
+        rules.push(r);
+    }
+    let mut ops = vec![if rng.chance(2, 3) { "C".to_string() } else { format!("X{}", rng.pick(&[10u64, 20, 30])) }];
+    if failing {
+        match rng.below(8) {
+            0..=2 => ops.push(format!("D{}", fname)),
+            3 | 4 => ops.push(format!("R{}", fname)),
+            5 | 6 => ops.push("S2.0".to_string()),
+            _ => {}
+        }
+    } else if rng.chance(1, 8) {
+        ops.push(format!("S{}.{}", rng.below(2), rng.below(3)));
+    }
+    ops.push(if rng.chance(2, 3) { format!("X{}", rng.pick(&[10u64, 20, 30])) } else { "C".to_string() });
+    if rng.chance(1, 4) {
+        ops.push(exec_op(rng));
+    }
+    let facts = vec![Some(0), Some(0), if failing { None } else { Some(0) }, Some(0)];
+    show_case(&Case { maxc, facts, rules, ops })
+}
+
+/// c02's candidates, preceded (for big knowledge bases) by the removal of whole blocks of rules from the front, the
+/// back and the middle, so that a failure that needs many rules is cut down in a few steps
+fn shrink3(case: &str) -> Vec<String> {
+    let mut out = Vec::new();
+    if let Some(c) = parse_case(case) {
+        let n = c.rules.len();
+        if n > 12 {
+            let mut k = n / 2;
+            while k >= 2 {
+                for (a, b) in [(0, k), (n - k, n), ((n - k) / 2, (n - k) / 2 + k)] {
+                    let mut rules = c.rules.clone();
+                    rules.drain(a..b);
+                    out.push(show_case(&Case { maxc: c.maxc, facts: c.facts.clone(), rules, ops: c.ops.clone() }));
+                }
+                k /= 2;
+            }
+        }
+    }
+    out.extend(shrink(case));
+    // an early stop is only visible below the bound: a case that fails with max_cycles >= 2 keeps max_cycles >= 2
+    if let Some(c) = parse_case(case) {
+        if c.maxc >= 2 {
+            out.retain(|s| parse_case(s).map(|d| d.maxc >= 2).unwrap_or(false));
+            if c.maxc > 2 {
+                out.push(show_case(&Case { maxc: 2, facts: c.facts.clone(), rules: c.rules.clone(), ops: c.ops.clone() }));
+            }
+        }
+    }
     out
 }
 
@@ -116,6 +491,6 @@ fn main() {
     if std::env::args().nth(1).as_deref() == Some("exec") {
         exec_main(exec_case, 5);
     } else {
-        main_with(Prop { gen, exec: exec_case, shrink });
+        main_with(Prop { gen, exec: exec_case, shrink: shrink3 });
     }
 }
